@@ -105,6 +105,31 @@ def shape(line, delim, rs):
     return s
 
 
+MASK64 = (1 << 64) - 1
+
+
+def murmur64a_py(data, seed):
+    """reference MurmurHash64A (as in checks/C14.py), used to predict which shard a key goes to"""
+    import struct
+    M, R = 0xc6a4a7935bd1e995, 47
+    h = (seed ^ (len(data) * M)) & MASK64
+    n = len(data) // 8
+    for k in struct.unpack_from("<%dQ" % n, data):
+        k = (k * M) & MASK64
+        k ^= k >> R
+        k = (k * M) & MASK64
+        h ^= k
+        h = (h * M) & MASK64
+    tail = data[n * 8:]
+    if tail:
+        h ^= int.from_bytes(tail, "little")
+        h = (h * M) & MASK64
+    h ^= h >> R
+    h = (h * M) & MASK64
+    h ^= h >> R
+    return h
+
+
 # ------------------------------------------------------------------ generators
 def all_small_lists():
     """every list of <= 3 ranges over field numbers <= 4"""
@@ -398,6 +423,41 @@ def main(argv):
             if st != 0 or len(where) != 1:
                 c.violation("tool/shard-key: shard -f %s -d %r put lines %r and %r (identical selected fields) into files %s (status %s)" % (spec.decode(), dl, l1, l2, where, st),
                             {"op": "shard", "kind": "pair", "args": ["-f", spec.decode(), "-d", dl.decode("latin1")], "stdin_hex": hexs(data), "files": where})
+    # shard -f: the file a line lands in is hash_fold(seed, cut pieces) mod n -- also for lines with trailing / empty fields
+    SHARD_SEED = 47849374332489
+    for spec, d, nsh in ((b"2", 9, 5), (b"1,3", 9, 4), (b"2-", 32, 3), (b"-2", 44, 7), (b"2,4-", 9, 6)):
+        dl = bytes([d])
+        rs = canonical(cut_parse(spec))
+        batch = []
+        for _ in range(30 if c.tier == "quick" else 300):
+            nf = rng.randrange(1, 7)
+            batch.append(dl.join(bytes(rng.choice(b"abc") for _ in range(rng.choice((0, 0, 1, 2)))) for _ in range(nf)))
+        batch = [l for l in dict.fromkeys(batch)]
+        outs = [os.path.join(SCRATCH, "p%d" % i) for i in range(nsh)]
+        for o in outs:
+            if os.path.exists(o):
+                os.unlink(o)
+        st, so, se = run_tool([repo_bin("shard"), "-f", spec.decode(), "-d", dl.decode("latin1")] + outs, stdin=b"".join(l + b"\n" for l in batch), timeout=60)
+        if st != 0:
+            c.violation("tool/shard-status: shard -f %s ended with %s" % (spec.decode(), st), {"op": "shard", "kind": "status", "args": ["-f", spec.decode()], "status": str(st)})
+            continue
+        got = {}
+        for i, o in enumerate(outs):
+            for l in open(o, "rb").read().split(b"\n")[:-1]:
+                got.setdefault(l, set()).add(i)
+        for l in batch:
+            h = SHARD_SEED
+            for piece in cut_pieces(l, dl, rs):
+                h = murmur64a_py(piece, h)
+            c.count(("shard-place", spec, d, l), bucket="tool/shard-placement/" + shape(l, dl, rs))
+            c.cov["traces_validated_against_impl"] += 1
+            if got.get(l) != {h % nsh}:
+                c.violation("tool/shard-placement: shard -f %s -d %r put line %r into file(s) %s; the fold over its cut pieces %r mod %d is %d" % (
+                    spec.decode(), dl, l, sorted(got.get(l, [])), cut_pieces(l, dl, rs), nsh, h % nsh),
+                    {"op": "shard", "kind": "placement", "args": ["-f", spec.decode(), "-d", dl.decode("latin1"), "<%d outputs>" % nsh], "line_hex": hexs(l),
+                     "impl_files": sorted(got.get(l, [])), "expected_file": h % nsh})
+                break
+
     # malformed lists at the command line: an error, not a run
     for bad in (b"0", b"2-3-1", b" 1", b"4294967297", b"1,", b"", b"1-2,2-3", b"3-2", b"+1", b"a"):
         for tool, flag in (("dedupe", "-f"), ("shard", "-f")):
